@@ -410,6 +410,8 @@ impl Vm {
     pub fn reset(&mut self) {
         self.reset_stack();
         self.chunks = self.core_chunks.clone();
+        // Ranges compare by identity, so which ranges are still cached is observable.
+        self.range_cache.clear();
         self.modules.retain(|&k, _| k.as_str() == "main");
         self.active_module = self.module("main");
         self.active_module.borrow_mut().attributes = object::new_obj_string_value_map();
